@@ -781,6 +781,7 @@ def random_udf_script(seed, nops=24, rr=False):
     dirs = {'': ''}         # iso dir -> udf dir
     files = {}              # iso path -> udf path
     links = []
+    uonly = []              # UDF paths without an ISO9660 name of their own
     ops = []
     k = 0
     alphabet = ['a', 'B', '-', ' ', '\u00e9', '\u4e2d', '_']
@@ -804,18 +805,38 @@ def random_udf_script(seed, nops=24, rr=False):
             dirs[ip] = up
         elif r < 0.8:
             ip = rnd.choice(sorted(files))
-            ops.append(('rm_file', ip, files.pop(ip)))
+            up = files.pop(ip)
+            ops.append(('rm_file', ip, up))
+            for o in [o for o in ops if o[0] == 'ulink' and o[1] == up and o[2] in uonly]:
+                uonly.remove(o[2])
         elif r < 0.9:
-            empties = [d for d in dirs if d and not any(p.startswith(d + '/') for p in list(files) + list(dirs) + links)]
+            empties = [d for d in dirs if d and not any(p.startswith(d + '/') for p in list(files) + list(dirs) + links)
+                       and not any(u.startswith(dirs[d] + '/') for u in uonly)]
             if empties:
                 d = rnd.choice(empties)
                 ops.append(('rm_dir', d, dirs.pop(d)))
-        elif rr:
+        elif rr and r < 0.95:
             d = rnd.choice(parents)
             ip = '%s/S%d.;1' % (d, k)
             up = dirs[d] + '/' + uname
             ops.append(('symlink', ip, up, rnd.choice(['a', '../x', '/abs/./y', 'd/' + 'z' * 100])))
             links.append(ip)
+        elif r < 0.97:
+            # a file that exists in the UDF tree only
+            d = rnd.choice(parents)
+            up = dirs[d] + '/' + uname
+            ops.append(('ufile', up, rnd.choice([0, 5, 2049])))
+            uonly.append(up)
+        elif files:
+            # a second UDF name for a file, sometimes removed again
+            src = files[rnd.choice(sorted(files))]
+            d = rnd.choice(parents)
+            up = dirs[d] + '/' + uname
+            ops.append(('ulink', src, up))
+            uonly.append(up)
+            if rnd.random() < 0.4:
+                ops.append(('rm_ulink', up))
+                uonly.remove(up)
     return kw, ops
 
 
@@ -858,6 +879,15 @@ def build_udf(c, name):
             S.call(c, iso, 'rm_directory', iso_path=op[1], udf_path=op[2])
         elif op[0] == 'symlink':
             S.call(c, iso, 'add_symlink', symlink_path=op[1], rr_symlink_name=op[2].rsplit('/', 1)[1], rr_path=op[3], udf_symlink_path=op[2], udf_target=op[3])
+        elif op[0] == 'ufile':
+            cid = len(contents)
+            data = c.bytes('content%d' % cid, op[2])
+            contents[cid] = data
+            S.call(c, iso, 'add_fp', S.data_file(c, data), op[2], udf_path=op[1])
+        elif op[0] == 'ulink':
+            S.call(c, iso, 'add_hard_link', udf_old_path=op[1], udf_new_path=op[2])
+        elif op[0] == 'rm_ulink':
+            S.call(c, iso, 'rm_hard_link', udf_path=op[1])
     return iso, contents
 
 
@@ -870,10 +900,23 @@ def udf_model(script):
             m[op[2]] = ('file', cid)
         elif op[0] == 'dir':
             m[op[2]] = ('dir',)
-        elif op[0] in ('rm_file', 'rm_dir'):
+        elif op[0] == 'rm_file':
+            # rm_file takes every name of the content
+            gone = m.get(op[2])
+            for k in [k for k, v in m.items() if v == gone]:
+                m.pop(k)
+        elif op[0] == 'rm_dir':
             m.pop(op[2], None)
         elif op[0] == 'symlink':
             m[op[2]] = ('symlink', op[3])
+        elif op[0] == 'ufile':
+            cid = len(content)
+            content[cid] = op[2]
+            m[op[1]] = ('file', cid)
+        elif op[0] == 'ulink':
+            m[op[2]] = m[op[1]]
+        elif op[0] == 'rm_ulink':
+            m.pop(op[1], None)
     return m, content
 
 
@@ -924,7 +967,14 @@ class MasteredUDF(Base):
                 for s, ln in f['extents']:
                     u.objects.append(('UDF file data %s' % p, s, -(-ln // 2048)))
         cl['every-descriptor-tag-and-length-is-valid'] = not u.im.problems
-        over = extents_overlap(u.objects)
+        # several names of one file share its file entry and its data: one object
+        seen_obj, objs = set(), []
+        for w, s_, n_ in u.objects:
+            key = (w.split(' /')[0], s_, n_) if (w.startswith('UDF file entry') or w.startswith('UDF file data')) else (w, s_, n_)
+            if key not in seen_obj:
+                seen_obj.add(key)
+                objs.append((w, s_, n_))
+        over = extents_overlap(objs)
         cl['udf-objects-occupy-disjoint-sectors'] = not over
         inside = all(s >= u.part_start and s + n <= u.part_start + u.part_len for w, s, n in u.objects
                      if w.startswith('UDF file') or w.startswith('UDF directory') or w.startswith('UDF symlink'))
@@ -999,7 +1049,9 @@ class ReopenedUDF(Base):
         if files:
             good, _ = S.try_call(c, lambda: S.call(c, a.re, 'rm_file', iso_path=files[0][0], udf_path=files[0][1]))
             edit_ok = edit_ok and good
-            model.pop(files[0][1])
+            gone = model.get(files[0][1])
+            for k_ in [k_ for k_, v_ in model.items() if v_ == gone]:     # rm_file takes every name of the content
+                model.pop(k_)
         k = dict(iso_path='/NEWFILE.;1', udf_path='/newfile')
         if 'rock_ridge' in kw:
             k['rr_name'] = 'newfile'
